@@ -70,7 +70,7 @@ pub fn run(args: &Args, rep: &mut Report) {
     let a6: Vec<u8> = (0..6).collect();
     let a16: Vec<u8> = (0..16).collect();
     let plan: Vec<(&[u8], usize)> = if miri {
-        vec![(&a4, 4), (&a6, 3), (&a16, 2), (&[0, 255], 4)]
+        vec![(&a4, 4), (&a6, 3), (&a16, 1), (&[0, 255], 4)]
     } else if t {
         vec![(&a4, 9), (&a6, 7), (&a16, 5), (&[0, 255], 10), (&[3, 4, 5, 15, 16], 6)]
     } else {
@@ -97,7 +97,7 @@ pub fn run(args: &Args, rep: &mut Report) {
     rep.count("exhaustive_strings", n_exh);
     // every length 0..70 at max symbol just below / at each width threshold
     for maxsym in [3u8, 4, 5, 6, 15, 16, 255] {
-        for len in 0..=70usize {
+        for len in 0..=(if miri { 24usize } else { 70usize }) {
             let mut rng = Rng::derive(args.seed, 0xC12, (maxsym as u64) << 16 | len as u64);
             if !args.mine(len as u64) {
                 continue;
